@@ -35,11 +35,19 @@ structure DState where
   orc  : Path → List Resp     -- remaining responses per URL (exhausted ⇒ missing)
   reqs : List Path            -- request log, most recent first
 
-/-- consume one response of URL `u` -/
+/-- leading transport-level reconnect signals of a script, and what follows them -/
+def dropRetries : List Resp → Nat × List Resp
+  | .retry :: rest => let r := dropRetries rest; (r.1 + 1, r.2)
+  | l => (0, l)
+
+/-- Requests of URL `u` up to and including the first response that is not a reconnect signal
+    (`response.retry` ⇒ `continue` without consuming a try).  An exhausted script answers `missing`. -/
 def DState.request (s : DState) (u : Path) : Resp × DState :=
-  match s.orc u with
-  | [] => (.missing, { s with reqs := u :: s.reqs })
-  | r :: rs => (r, { s with orc := fun q => if q = u then rs else s.orc q, reqs := u :: s.reqs })
+  match dropRetries (s.orc u) with
+  | (k, []) => (.missing, { s with orc := fun q => if q = u then [] else s.orc q,
+                                   reqs := List.replicate (k + 1) u ++ s.reqs })
+  | (k, r :: rs) => (r, { s with orc := fun q => if q = u then rs else s.orc q,
+                                 reqs := List.replicate (k + 1) u ++ s.reqs })
 
 /-- `Downloader.link_or_copy(source, *targets)` -/
 def linkOrCopy (fs : FS) (source : Path) (targets : List Path) : FS :=
@@ -70,24 +78,27 @@ def sizeTruthy : Option Nat → Bool
   | some n => n ≠ 0
   | none => false
 
-/-- Outcome of one pass through the body of the `while tries > 0` loop. -/
+/-- Outcome of one pass through the body of the `while tries > 0` loop (after any reconnects). -/
 inductive Attempt
-  | accept (s : DState)                              -- `return` after book-keeping
-  | again (consume : Bool) (s : DState) (err : Bool) -- `continue` (after `retry(...)`)
-  | stop (s : DState)                                -- `break`
+  | accept (s : DState)                 -- `return` after book-keeping
+  | again (s : DState) (err : Bool)     -- `continue` after `retry(...)`: one try consumed
+  | stop (s : DState)                   -- `break`
+
+def Attempt.state : Attempt → DState
+  | .accept s => s | .again s _ => s | .stop s => s
 
 /-- One pass through the loop body for (variant, alias URL); `err` is the function-level
     `error` flag. Branch order exactly as in the code. -/
 def attempt (root : Path) (f : DFile) (v : Variant) (src : Path) (s : DState) (err : Bool) : Attempt :=
   match s.request src with
-  | (.retry, s1) => .again false s1 err
+  | (.retry, s1) => .again s1 err      -- unreachable: `request` skips reconnect signals
   | (.missing, s1) =>
-    if f.ignoreErrors ∨ f.ignoreMissing then .stop s1 else .again true s1 err
+    if f.ignoreErrors ∨ f.ignoreMissing then .stop s1 else .again s1 err
   | (.error, s1) =>
-    if f.ignoreErrors then .stop s1 else .again true s1 true
+    if f.ignoreErrors then .stop s1 else .again s1 true
   | (.ok announced date body abort tag, s1) =>
     if v.size > 0 ∧ sizeTruthy announced ∧ announced ≠ some v.size then
-      if f.ignoreErrors then .stop s1 else .again true s1 true
+      if f.ignoreErrors then .stop s1 else .again s1 true
     else if sizeTruthy announced ∧ !needUpdate s1.fs (root ++ src) announced date then
       .accept { s1 with
         fs := linkOrCopy s1.fs (root ++ src) (v.allPaths.map (root ++ ·)),
@@ -95,9 +106,9 @@ def attempt (root : Path) (f : DFile) (v : Variant) (src : Path) (s : DState) (e
                                downloaded := s1.book.downloaded ++ [v],
                                missing := listDiff s1.book.missing v.allPaths } }
     else if abort then
-      .again true { s1 with fs := s1.fs.rewrite (root ++ src) body tag } true
+      .again { s1 with fs := s1.fs.rewrite (root ++ src) body tag } true
     else if v.size > 0 ∧ v.size ≠ body then
-      .again true { s1 with fs := s1.fs.rewrite (root ++ src) body tag } true
+      .again { s1 with fs := s1.fs.rewrite (root ++ src) body tag } true
     else
       .accept { s1 with
         fs := linkOrCopy (utimeOpt (s1.fs.rewrite (root ++ src) body tag) (root ++ src) date) (root ++ src)
@@ -106,37 +117,17 @@ def attempt (root : Path) (f : DFile) (v : Variant) (src : Path) (s : DState) (e
                                downloaded := s1.book.downloaded ++ [v],
                                missing := listDiff s1.book.missing v.allPaths } }
 
-theorem attempt_again_false {root f v src s err s' e'} (h : attempt root f v src s err = .again false s' e') :
-    (s'.orc src).length < (s.orc src).length := by
-  unfold attempt at h
-  split at h
-  · rename_i s1 hreq
-    injection h with _ h2 _
-    subst h2
-    unfold DState.request at hreq
-    split at hreq
-    · simp at hreq
-    · rename_i r rs heq
-      obtain ⟨_, h2⟩ := Prod.mk.inj hreq
-      subst h2
-      simp [heq]
-  all_goals (repeat' split at h) <;> simp at h
-
-/-- The `while tries > 0` loop for one (variant, alias URL).  A `retry` response consumes a
-    script element but no try; termination needs exactly that scripts are finite. -/
+/-- The `while tries > 0` loop for one (variant, alias URL). Total by structural recursion on the
+    number of tries; scripts are finite lists, which is the "finitely many reconnect signals"
+    assumption of C12. -/
 def tryLoop (root : Path) (f : DFile) (v : Variant) (src : Path) :
     (tries : Nat) → DState → Bool → TryResult × DState × Bool
   | 0, s, err => (.exhausted, s, err)
   | tries + 1, s, err =>
-    match h : attempt root f v src s err with
+    match attempt root f v src s err with
     | .accept s' => (.accepted, s', err)
     | .stop s' => (.exhausted, s', err)
-    | .again true s' e' => tryLoop root f v src tries s' e'
-    | .again false s' e' => tryLoop root f v src (tries + 1) s' e'
-termination_by tries s _ => (tries, (s.orc src).length)
-decreasing_by
-  · apply Prod.Lex.left; omega
-  · apply Prod.Lex.right; exact attempt_again_false h
+    | .again s' e' => tryLoop root f v src tries s' e'
 
 def tryAliases (root : Path) (f : DFile) (v : Variant) :
     List Path → DState → Bool → TryResult × DState × Bool
